@@ -784,8 +784,200 @@ fn extreme_scale(rng: &mut Rng, rep: &mut Report, maxlen: usize, big: bool) {
     rep.distinct(Hasher::new().s("xscale").fs(&zx).fs(&zy).finish(), true);
 }
 
+// ---------------------------------------------------------------------------------------------
+// near-ties: neighbouring doubles of the extremes (1..4 ulp away) before and after the true extreme
+
+/// k representable steps from v towards -inf (k > 0) or +inf (k < 0)
+fn step(v: f64, k: i32) -> f64 {
+    let mut r = v;
+    for _ in 0..k.abs() {
+        r = if k > 0 { r.next_down() } else { r.next_up() };
+    }
+    r
+}
+
+/// A data set whose maximum and minimum are each accompanied by values 1..=4 ulp inside of them, at
+/// least one of those in front of the extreme itself (n >= 4). Extremes and indices are exact
+/// quantities: a neighbouring double is not the extreme.
+fn gen_near_ties(rng: &mut Rng, n: usize) -> Vec<f64> {
+    let base = *rng.choose(&["small-int", "gaussian", "offset", "sorted", "reversed", "constant", "ties"]);
+    let mut x = gen_data(rng, base, n);
+    let (mut lo, mut hi) = (x[0], x[0]);
+    for &v in &x {
+        lo = lo.min(v);
+        hi = hi.max(v);
+    }
+    // the new extremes lie 8 ulp outside the base data, their neighbours 1..=4 ulp inside of them: every
+    // base value stays strictly inside the neighbours, so the first occurrence of an extreme is a planted one
+    let (lo, hi) = (step(lo, 8), step(hi, -8));
+    // positions: p_max and p_min (distinct, both >= 1 so that a neighbour can precede them)
+    let idx = rng.perm(n);
+    let mut slots: Vec<usize> = idx[..4.min(n)].to_vec();
+    slots.sort();
+    // the two later slots carry the extremes, the two earlier ones their neighbours (in random assignment)
+    let (a, b, c, d) = (slots[0], slots[1], slots[2], slots[3]);
+    let (pn_max, pn_min) = if rng.bool() { (a, b) } else { (b, a) };
+    let (p_max, p_min) = if rng.bool() { (c, d) } else { (d, c) };
+    x[p_max] = hi;
+    x[p_min] = lo;
+    x[pn_max] = step(hi, rng.int(1, 4) as i32);
+    x[pn_min] = step(lo, -(rng.int(1, 4) as i32));
+    // further neighbours anywhere else (before or after), and sometimes a second copy of the extreme
+    for &i in idx[4.min(n)..].iter().take(rng.usize(0, 4)) {
+        match rng.usize(0, 3) {
+            0 | 1 => x[i] = step(hi, rng.int(1, 4) as i32),
+            2 => x[i] = step(lo, -(rng.int(1, 4) as i32)),
+            _ => x[i] = if rng.bool() { hi } else { lo },
+        }
+    }
+    x
+}
+
+// ---------------------------------------------------------------------------------------------
+// structured bin edges: progressions a user would type (octaves, decades, arithmetic, ...)
+
+const STRUCTURED_EDGES: [&str; 6] = ["geometric", "geometric-negative", "arithmetic", "shrinking-widths", "mixed", "integer-sequence"];
+
+fn structured_edges(rng: &mut Rng, kind: usize) -> Vec<f64> {
+    let ratio = |rng: &mut Rng| *rng.choose(&[2.0, 10.0, 3.0, 1.5, 4.0, 1.25, 5.0, 16.0]);
+    let start = |rng: &mut Rng| match rng.usize(0, 5) {
+        0 => 1.0,
+        1 => *rng.choose(&[31.25, 0.5, 3.0, 0.001, 20.0, 440.0, 1e-6, 100.0]),
+        2 => 2f64.powi(rng.int(-20, 20) as i32),
+        3 => 10f64.powi(rng.int(-9, 9) as i32),
+        4 => rng.int(1, 64) as f64 / 16.0,
+        _ => rng.log_range(1e-6, 1e6),
+    };
+    // number of edges, limited so that start * ratio^(ne-1) stays below 1e100
+    let ne_for = |rng: &mut Rng, r: f64, s: f64| {
+        let cap = (((1e100f64 / s).ln() / r.ln()).floor() as usize).clamp(3, 48);
+        if rng.chance(0.4) { rng.usize(3, 6.min(cap)) } else { rng.usize(3, cap) }
+    };
+    let geometric = |rng: &mut Rng| -> Vec<f64> {
+        let (r, s) = (ratio(rng), start(rng));
+        let ne = ne_for(rng, r, s);
+        if rng.bool() {
+            // running product (exact while the terms are representable)
+            let mut e = s;
+            (0..ne)
+                .map(|_| {
+                    let v = e;
+                    e *= r;
+                    v
+                })
+                .collect()
+        } else {
+            (0..ne).map(|i| s * r.powi(i as i32)).collect()
+        }
+    };
+    match kind {
+        0 => geometric(rng),
+        1 => {
+            let mut g: Vec<f64> = geometric(rng).iter().map(|v| -v).collect();
+            g.reverse();
+            if rng.chance(0.3) {
+                g.push(0.0);
+            }
+            g
+        }
+        2 => {
+            let ne = rng.usize(3, 48);
+            let (a, h) = match rng.usize(0, 2) {
+                0 => (rng.int(-100, 100) as f64, rng.int(1, 50) as f64),
+                1 => (0.0, *rng.choose(&[0.1, 0.25, 0.5, 1.0, 2.5, 1e-3, 1e3])),
+                _ => (rng.int(-100, 100) as f64 / 8.0, rng.int(1, 64) as f64 / 16.0),
+            };
+            (0..ne).map(|i| a + i as f64 * h).collect()
+        }
+        3 => {
+            // widths shrink geometrically towards an end point: E - w*r^-i
+            let r: f64 = *rng.choose(&[2.0, 10.0, 4.0, 1.5]);
+            let ne = rng.usize(3, if r == 10.0 { 12 } else { 30 });
+            let end = if rng.bool() { 0.0 } else { rng.int(-50, 50) as f64 };
+            let w = 2f64.powi(rng.int(0, 10) as i32);
+            (0..ne).map(|i| end - w / r.powi(i as i32)).collect()
+        }
+        4 => {
+            // a geometric stretch continued by an arithmetic one (or preceded by one)
+            let g = geometric(rng);
+            let last = *g.last().unwrap();
+            let h = last - g[g.len() - 2];
+            let extra = rng.usize(1, 6);
+            if rng.bool() {
+                let mut v = g.clone();
+                for i in 1..=extra {
+                    v.push(last + i as f64 * h);
+                }
+                v
+            } else {
+                let h0 = g[0] / (extra as f64 + 1.0);
+                let mut v: Vec<f64> = (0..extra).map(|i| g[0] - (extra - i) as f64 * h0).collect();
+                v.extend_from_slice(&g);
+                v
+            }
+        }
+        _ => {
+            let ne = rng.usize(3, 40);
+            match rng.usize(0, 3) {
+                0 => (1..=ne).map(|i| (i * i) as f64).collect(),
+                1 => (1..=ne).map(|i| (i * (i + 1) / 2) as f64).collect(),
+                2 => {
+                    let (mut a, mut b) = (1.0f64, 2.0f64);
+                    (0..ne)
+                        .map(|_| {
+                            let v = a;
+                            let c = a + b;
+                            a = b;
+                            b = c;
+                            v
+                        })
+                        .collect()
+                }
+                _ => (0..ne).map(|i| [1.0, 2.0, 5.0][i % 3] * 10f64.powi((i / 3) as i32)).collect(),
+            }
+        }
+    }
+}
+
+fn hist_structured(rng: &mut Rng, rep: &mut Report, kind: usize) {
+    let edges = structured_edges(rng, kind);
+    let nb = edges.len() - 1;
+    let regime = format!("structured:{}", STRUCTURED_EDGES[kind]);
+    rep.case(&format!("hist:{}", regime));
+    rep.distinct(Hasher::new().s("hist-structured").fs(&edges).finish(), nb >= 2);
+    let got = guard(|| st::hist_bin_centers(&edges).v.clone());
+    rep.note_add("library_calls", 1.0);
+    let ctx = |obs: Value, extra: Value| json!({"edges": jf(&edges), "n_edges": nb + 1, "observed": obs, "detail": extra});
+    match got {
+        Err(msg) => {
+            rep.check("C08.hist_bin_centers.no_panic", &regime, false, || ctx(json!({"panic": msg}), json!(null)));
+        }
+        Ok(v) => {
+            if !rep.check("C08.hist_bin_centers.len", &regime, v.len() == nb, || ctx(jf(&v), json!({"expected_len": nb, "returned_len": v.len()}))) {
+                return;
+            }
+            let mut worst = 0.0f64;
+            let mut first_bad: Option<(usize, f64, f64)> = None;
+            for i in 0..nb {
+                let want = (Dd::sum2(edges[i], edges[i + 1]) * Dd::new(0.5)).f();
+                let tol = 2.0 * ulp(edges[i].abs().max(edges[i + 1].abs()));
+                let err = (v[i] - want).abs();
+                worst = worst.max(if err.is_nan() { f64::INFINITY } else { err / tol });
+                if !(err <= tol) && first_bad.is_none() {
+                    first_bad = Some((i, v[i], want));
+                }
+            }
+            rep.note_max("worst_ratio.hist_bin_centers.structured", worst);
+            rep.check("C08.hist_bin_centers", &regime, first_bad.is_none(), || {
+                let (i, o, w) = first_bad.unwrap();
+                ctx(jf(&v), json!({"first_wrong_bin": i, "observed_centre": jnum(o), "expected_centre": w, "bin": [edges[i], edges[i + 1]], "worst_err_over_tol": jnum(worst)}))
+            });
+        }
+    }
+}
+
 pub fn run(cfg: &Cfg, rep: &mut Report) {
-    rep.rule = "data sets of length 1..1e4 (>= 2 for sample statistics and pairs) from 8 classes (small integers, gaussian, offset with mean/sd 1e2..1e8, constant, sorted, reversed, ties, signed zeros), each pushed through the free functions, the Vector methods and the Matrix methods (random r x c shape); pairs from 8 classes (incl. identical and constant) through the four covariance algorithms; grid data with exact shifts up to 8e9 and exact 2^k scalings for the metamorphic relations; uniform (dyadic and linspace) and non-uniform bin edges (2..501 edges); one-point data sets (values 5e-324..1e300, signed zeros) through every population statistic and API with the definition as oracle, length 2 forced for the sample statistics; grid data times 2^+-(300..480) (unit spread, spreads 2^-20..2^-36, offset with spread/mean 2^-28..2^-38) for homogeneity of every statistic. one evaluation = one data set through one API (9-24 library calls, see notes.library_calls). non-trivial = length >= 2 and not constant (hist: >= 2 bins); distinct by bits of the data".into();
+    rep.rule = "data sets of length 1..1e4 (>= 2 for sample statistics and pairs) from 8 classes (small integers, gaussian, offset with mean/sd 1e2..1e8, constant, sorted, reversed, ties, signed zeros), each pushed through the free functions, the Vector methods and the Matrix methods (random r x c shape); pairs from 8 classes (incl. identical and constant) through the four covariance algorithms; grid data with exact shifts up to 8e9 and exact 2^k scalings for the metamorphic relations; uniform (dyadic and linspace) and non-uniform bin edges (2..501 edges); one-point data sets (values 5e-324..1e300, signed zeros) through every population statistic and API with the definition as oracle, length 2 forced for the sample statistics; grid data times 2^+-(300..480) (unit spread, spreads 2^-20..2^-36, offset with spread/mean 2^-28..2^-38) for homogeneity of every statistic. one evaluation = one data set through one API (9-24 library calls, see notes.library_calls). non-trivial = length >= 2 and not constant (hist: >= 2 bins); distinct by bits of the data; near-tie data sets (values 1..4 ulp inside the maximum / minimum placed before and after it) through every API; structured bin edges (geometric progressions with ratios 2, 10, 3, 1.5, ..., their negatives, arithmetic, geometrically shrinking widths, mixed, integer sequences)".into();
     rep.assume("all data finite; empty input and sample statistics of a single value are outside the quantifier");
     rep.assume("'rounding-error bound of a numerically stable algorithm' is read as B = 16[n u sx sy + n u (sx|my| + sy|mx|) + (n u)^2 |mx my|] for (co)variances (Welford's own n·u·kappa bound is the middle term; DESIGN's tighter c·n·eps·(s^2 + eps·mu^2) is recorded under info.worst_ratio_vs_DESIGN_formula.* for comparison), 8 n u max|x| for means (1 ulp for `mean` of small integers), B/sd resp. sqrt(B) for standard deviations");
     rep.assume("min/max are compared by value (either zero accepted for +-0); argmin/argmax = first index whose value equals the extreme");
@@ -843,6 +1035,40 @@ pub fn run(cfg: &Cfg, rep: &mut Report) {
         rep.check("C08.argmin", "free:ties", matches!(r, Ok((1, _))), || json!({"data": jf(&t), "observed": format!("{:?}", r), "expected": 1}));
         rep.check("C08.argmax", "free:ties", matches!(r, Ok((_, 2))), || json!({"data": jf(&t), "observed": format!("{:?}", r), "expected": 2}));
     });
+    // near-ties of the extremes and structured bin edges
+    let n_near = cfg.pick(800, 12000, 6);
+    par_cases(cfg, rep, 8, n_near, |i, rng, rep| {
+        let n = if i % 4 == 0 { rng.usize(4, 9) } else { gen_len(rng, maxlen, 4) };
+        let x = gen_near_ties(rng, n);
+        // the construction itself: a strictly smaller (larger) neighbour within 4 ulp precedes the maximum (minimum)
+        let (mut imax, mut imin) = (0, 0);
+        for (j, &v) in x.iter().enumerate() {
+            if v > x[imax] {
+                imax = j;
+            }
+            if v < x[imin] {
+                imin = j;
+            }
+        }
+        if x[..imax].iter().any(|&v| v < x[imax] && v >= step(x[imax], 4)) {
+            rep.seen("extreme:near-max-before-max", 1);
+        }
+        if x[..imin].iter().any(|&v| v > x[imin] && v <= step(x[imin], -4)) {
+            rep.seen("extreme:near-min-before-min", 1);
+        }
+        check_single(rep, "near-ties", &x, rng);
+    });
+    let n_sh = cfg.pick(900, 9000, 12);
+    par_cases(cfg, rep, 9, n_sh, |i, rng, rep| hist_structured(rng, rep, i % STRUCTURED_EDGES.len()));
+    for api in ["free", "vector", "matrix"] {
+        rep.require(&format!("{}:near-ties", api), 1);
+    }
+    for r in ["extreme:near-max-before-max", "extreme:near-min-before-min"] {
+        rep.require(r, 1);
+    }
+    for k in STRUCTURED_EDGES {
+        rep.require(&format!("hist:structured:{}", k), 1);
+    }
     for api in ["free", "vector", "matrix"] {
         for c in CLASSES {
             rep.require(&format!("{}:{}", api, c), 1);
